@@ -150,6 +150,50 @@ pub fn shapes(run: &mut Runner, ctx: &SimCtx, seed: u64, count: u64, thorough: b
     }
 }
 
+fn nonzero_bits(v: &[f64]) -> Value {
+    Value::Array(v.iter().enumerate().filter(|(_, x)| **x != 0.0).map(|(i, x)| json!([i, fbits(*x)])).collect())
+}
+
+/// scale covariance of the routines themselves (hook H2) over a wide range of powers of two: the property
+/// speaks of calibrated samples, which carry an arbitrary f64 gain
+pub fn routine_scale(run: &mut Runner, ctx: &SimCtx, seed: u64, count: u64) {
+    let mut rng = rng_from(seed, 172);
+    let ks = [-60i32, -40, -20, -1, 1, 20, 40];
+    for ci in 0..count {
+        if !run.wants() {
+            run.n += 1;
+            continue;
+        }
+        let pad = ci % 2 == 0;
+        let n = rng.gen_range(30..=400);
+        let sig = waveform(&mut rng, if pad { &ctx.pad_resp } else { &ctx.wire_resp }, n);
+        let w0 = rng.gen_range(0..256usize);
+        let base = obj(vec![("fam", json!("rscale")), ("what", json!(if pad { "pad" } else { "wire" })), ("case", json!(format!("q{ci}")))]);
+        run.case(base, move || {
+            let f = |s: &[f64]| -> Vec<f64> {
+                if pad {
+                    verif::pad_deconvolution(s)
+                } else {
+                    let mut arr: Vec<Option<Vec<f64>>> = vec![None; 256];
+                    arr[w0] = Some(s.to_vec());
+                    let arr: [Option<Vec<f64>>; 256] = arr.try_into().unwrap();
+                    let rg = verif::contiguous_ranges(&arr);
+                    verif::wire_range_deconvolution(&arr, rg[0]).remove(0).1
+                }
+            };
+            let b = f(&sig);
+            let runs: Vec<Value> = ks
+                .iter()
+                .map(|&k| {
+                    let s: Vec<f64> = sig.iter().map(|x| x * 2f64.powi(k)).collect();
+                    json!([k, nonzero_bits(&f(&s))])
+                })
+                .collect();
+            obj(vec![("verdict", json!("ok")), ("base", nonzero_bits(&b)), ("runs", Value::Array(runs))])
+        });
+    }
+}
+
 /// isolated response-shaped pulse of amplitude a at sample k on wire w (exact f64 signal, hook H2)
 pub fn pulses(run: &mut Runner, ctx: &SimCtx, thorough: bool) {
     let lens: &[usize] = if thorough { &[100, 411, 700] } else { &[411] };
@@ -227,6 +271,7 @@ pub fn run(runner: &mut Runner, data_dir: &str, replay_path: Option<&str>, seed:
         replay(runner, p);
     }
     shapes(runner, &ctx, seed, if thorough { 20000 } else { 300 }, thorough);
+    routine_scale(runner, &ctx, seed, if thorough { 3000 } else { 120 });
     pulses(runner, &ctx, thorough);
     scale(runner, &ctx, seed, if thorough { 300 } else { 6 });
     let _: Option<(BTreeMap<usize, usize>, SimEvent, usize)> = None;
